@@ -10,7 +10,8 @@ STYLES = [None, 'camelCase', 'PascalCase', 'kebab-case', 'snake_case', 'SCREAMIN
 ALL_STYLE_STRINGS = STYLES[1:]
 
 STEMS = ['Red', 'GreenLeaf', 'HTTPServer', 'Foo2Bar', 'XMLHttpRequest', 'A1', 'snake_ident', 'Ab_cD', 'Kiwi', 'Task',
-         'IOError', 'Utf8', 'B2B', 'lower', 'UPPER', 'Mixed_Case_9', 'Silk', 'Iris', 'Disk', 'Ski', 'Sketch', 'Kiss']
+         'IOError', 'Utf8', 'B2B', 'lower', 'UPPER', 'Mixed_Case_9', 'Silk', 'Iris', 'Disk', 'Ski', 'Sketch', 'Kiss',
+         'red', 'rr_sched', 'rRaw']
 
 KINDS = [('unit', []), ('tuple', ['u8']), ('tuple', ['String', 'i32']), ('tuple', ['bool', 'u8', 'OptU8']),
          ('named', ['i32']), ('named', ['u8', 'String']), ('named', ['String', 'bool', 'u8']), ('tuple', []), ('named', [])]
